@@ -506,6 +506,10 @@ func (s *SecureChannel) readChunk() (*MessageChunk, error) {
 			return nil, ua.StatusBadDecodingError // todo(dh): check if this is the correct error
 		}
 
+		if s.kind == server {
+			s.prepareServerRenewal()
+		}
+
 		if s.openingInstance == nil {
 			return nil, errors.Errorf("sechan: invalid state. openingInstance is nil.")
 		}
@@ -826,6 +830,17 @@ func (s *SecureChannel) handleOpenSecureChannelRequest(reqID uint32, svc ua.Requ
 	instance := s.openingInstance
 	instance.algo = algo
 	verifPoint("serverOPN.afterAsymAlgo")
+
+	// A renewal: the token that is being replaced stays usable. Its lock is
+	// held until the new token is active so that concurrent senders neither
+	// interleave with the response nor use the new token's sequence numbers.
+	var old *channelInstance
+	if cur, err := s.getActiveChannelInstance(); err == nil && cur != instance {
+		old = cur
+		old.Lock()
+		defer old.Unlock()
+		instance.sequenceNumber = old.sequenceNumber
+	}
 	instance.sc.requestID = req.RequestHeader.RequestHandle // todo(fs): is this correct?
 
 	nonce := make([]byte, instance.algo.NonceLength())
@@ -861,6 +876,8 @@ func (s *SecureChannel) handleOpenSecureChannelRequest(reqID uint32, svc ua.Requ
 	}
 	instance.SetMaximumBodySize(int(s.c.SendBufSize()))
 
+	instance.createdAt = resp.SecurityToken.CreatedAt
+	instance.revisedLifetime = time.Millisecond * time.Duration(resp.SecurityToken.RevisedLifetime)
 	instance.state = channelActive // todo(fs): is this correct?
 	// s.setState(secureChannelOpen)
 
@@ -872,7 +889,27 @@ func (s *SecureChannel) handleOpenSecureChannelRequest(reqID uint32, svc ua.Requ
 	s.activeInstance = instance
 	s.instancesMu.Unlock()
 
+	// the replaced token is accepted until it expires
+	if old != nil {
+		go s.scheduleExpiration(old)
+	}
+
 	return nil
+}
+
+// prepareServerRenewal gives an OpenSecureChannel request that arrives on an
+// open server channel, i.e. a token renewal, a channel instance of its own.
+// The active instance must not be touched: it is still used to secure
+// responses and to verify requests until the new token is active.
+func (s *SecureChannel) prepareServerRenewal() {
+	active, err := s.getActiveChannelInstance()
+	if err != nil || s.openingInstance != active {
+		return
+	}
+	instance := newChannelInstance(s)
+	instance.secureChannelID = active.secureChannelID
+	instance.securityTokenID = active.securityTokenID + 1
+	s.openingInstance = instance
 }
 
 func (s *SecureChannel) scheduleRenewal(instance *channelInstance) {
@@ -1213,7 +1250,7 @@ func (s *SecureChannel) SendMsgWithContext(ctx context.Context, instance *channe
 	}
 
 	// we need to get a lock on the sequence number so we are sure to send them in the correct order.
-	instance.Lock()
+	instance = s.lockCurrentInstance(instance)
 	defer instance.Unlock()
 
 	m := instance.newMessage(resp, typeID, reqID)
@@ -1238,7 +1275,7 @@ func (s *SecureChannel) sendResponseWithContext(ctx context.Context, instance *c
 		}
 	}
 	verifPoint("response.beforeInstanceLock")
-	instance.Lock()
+	instance = s.lockCurrentInstance(instance)
 	defer instance.Unlock()
 
 	m := instance.newMessage(resp, typeID, reqID)
